@@ -12,7 +12,9 @@ import (
 // C02 — IsXSS is total.
 
 func evalC02Public(w *fw.W, s, _ string) {
+	arm(s)
 	b := lib.IsXSS(s)
+	disarm(w)
 	if hasNonWhite(s) {
 		w.NonTrivial()
 	}
